@@ -1403,6 +1403,9 @@ package gocql
 //@   ensures result1 == haskey(r.hostIPToUUID, ip)
 //@   ensures result1 && haskey(r.hosts, r.hostIPToUUID[ip]) ==> result0 == r.hosts[r.hostIPToUUID[ip]]
 //@   ensures result1 && !haskey(r.hosts, r.hostIPToUUID[ip]) ==> result0 == nil
+// ring invariant assumed by the event handlers: an address of the by-address index leads to a node
+// of the by-id index (holds as long as a node's node-to-node address does not change while it is in the ring)
+//@   ensures_assumed result1 ==> result0 != nil
 
 //@ func (r *ring) rrHost
 //@   props C16
@@ -1415,6 +1418,10 @@ package gocql
 //@   props C16
 //@   count_calls String
 //@   requires host != nil
+//@   requires ring_wf(r)
+//@   ensures ring_wf(r)
+//@   modifies r.hosts, r.hostIPToUUID, r.hostList, r.hosts[*], r.hostIPToUUID[*]
+//@   ensures (same(r.hosts, old(r.hosts)) || fresh(r.hosts)) && (same(r.hostIPToUUID, old(r.hostIPToUUID)) || fresh(r.hostIPToUUID))
 //@   requires validhost(host)
 //@   ensures result1 == old(haskey(r.hosts, host.hostId))
 //@   ensures result1 ==> result0 == old(r.hosts[host.hostId]) && map_unchanged_except(r.hosts) && map_unchanged_except(r.hostIPToUUID) && same(r.hostList, old(r.hostList))
@@ -1427,9 +1434,12 @@ package gocql
 // took over the address stays reachable); every other entry of both maps is untouched.
 //@ func (r *ring) removeHost
 //@   props C16
-//@   count_calls String
-//@   requires haskey(r.hosts, hostID) ==> r.hosts[hostID] != nil
-//@   requires forall(k, 0 <= k && k < len(r.hostList), r.hostList[k] != nil)
+//@   count_calls String nodeToNodeAddress
+//@   before String: nodeToNodeAddress_calls == 1 && same(arg0, nodeToNodeAddress_ret0)
+//@   modifies r.hosts, r.hostIPToUUID, r.hostList, r.hosts[*], r.hostIPToUUID[*], r.hostList[*]
+//@   requires ring_wf(r)
+//@   ensures ring_wf(r)
+//@   ensures (same(r.hosts, old(r.hosts)) || fresh(r.hosts)) && (same(r.hostIPToUUID, old(r.hostIPToUUID)) || fresh(r.hostIPToUUID))
 //@   ensures result == old(haskey(r.hosts, hostID))
 //@   ensures r.hosts != nil && r.hostIPToUUID != nil && !haskey(r.hosts, hostID)
 //@   ensures map_unchanged_except(r.hosts, hostID)
@@ -1438,7 +1448,224 @@ package gocql
 //@   ensures result && old(haskey(r.hostIPToUUID, String_ret0)) && old(r.hostIPToUUID[String_ret0]) != hostID ==> haskey(r.hostIPToUUID, String_ret0) && r.hostIPToUUID[String_ret0] == old(r.hostIPToUUID[String_ret0])
 //@   ensures result && old(haskey(r.hostIPToUUID, String_ret0)) && old(r.hostIPToUUID[String_ret0]) == hostID ==> !haskey(r.hostIPToUUID, String_ret0)
 //@   ensures len(r.hostList) <= old(len(r.hostList)) && len(r.hostList) >= old(len(r.hostList)) - 1
-//@   loop 0: invariant -1 <= rangeindex && rangeindex < len(r.hostList) && same(r.hostList, old(r.hostList)) && r.hosts != nil && r.hostIPToUUID != nil && String_calls == 0
+//@   loop 0: invariant -1 <= rangeindex && rangeindex < len(r.hostList) && same(r.hostList, old(r.hostList)) && r.hosts != nil && r.hostIPToUUID != nil && String_calls == 0 && nodeToNodeAddress_calls == 0
+
+// ---- removal of a node: selection policy, connection pool and ring, all three, for the node's id
+//@ func (recv HostSelectionPolicy) RemoveHost
+//@   interface
+//@   trusted policies keep their own host lists; they do not write session, ring or pool state
+//@   preserves_types Session ring policyConnPool HostInfo ClusterConfig refreshDebouncer
+
+//@ func (recv HostSelectionPolicy) AddHost
+//@   interface
+//@   trusted policies keep their own host lists; they do not write session, ring or pool state
+//@   preserves_types Session ring policyConnPool HostInfo ClusterConfig refreshDebouncer
+
+//@ func (recv HostSelectionPolicy) HostDown
+//@   interface
+//@   trusted policies keep their own host lists; they do not write session, ring or pool state
+//@   preserves_types Session ring policyConnPool HostInfo ClusterConfig refreshDebouncer
+
+//@ func (recv HostFilter) Accept
+//@   interface
+//@   trusted a host filter only inspects the host
+//@   modifies nothing
+
+//@ func (cfg *ClusterConfig) filterHost
+//@   props C16
+//@   modifies nothing
+//@   ensures cfg.HostFilter == nil ==> !result
+
+//@ func (p *policyConnPool) removeHost
+//@   props C16
+//@   requires pool_wf(p)
+//@   ensures pool_wf(p)
+//@   modifies p.hostConnPools[*]
+//@   ensures !haskey(p.hostConnPools, hostID) && map_unchanged_except(p.hostConnPools, hostID)
+
+//@ predicate pool_wf(p): forall(string(id), haskey(p.hostConnPools, id) ==> p.hostConnPools[id] != nil)
+//@ predicate ring_wf(r): (forall(k, 0 <= k && k < len(r.hostList), r.hostList[k] != nil)) && (forall(string(id), haskey(r.hosts, id) ==> r.hosts[id] != nil))
+
+//@ func (s *Session) removeHost
+//@   props C16
+//@   preserves_types HostInfo ClusterConfig
+//@   count_calls HostSelectionPolicy.RemoveHost policyConnPool.removeHost ring.removeHost
+//@   requires h != nil && s.policy != nil && s.pool != nil
+//@   requires ring_wf(s.ring) && pool_wf(s.pool)
+//@   ensures ring_wf(s.ring) && pool_wf(s.pool)
+//@   ensures s.policy == old(s.policy) && s.pool == old(s.pool) && s.cfg.HostFilter == old(s.cfg.HostFilter)
+//@   ensures map_unchanged_except(s.ring.hosts, h.hostId)
+//@   ensures smt("bool", "(and (not (= $1 $2)) (not (= $1 $3)))", s.pool.hostConnPools, s.ring.hosts, s.ring.hostIPToUUID)
+// maps of different Go types are different objects
+//@   requires smt("bool", "(and (not (= $1 $2)) (not (= $1 $3)))", s.pool.hostConnPools, s.ring.hosts, s.ring.hostIPToUUID)
+// a policy has no access to the ring's and the pool's maps
+//@   stable_across HostSelectionPolicy.RemoveHost: s.ring.hosts, s.ring.hostIPToUUID, s.ring.hostList, s.pool.hostConnPools
+//@   before HostSelectionPolicy.RemoveHost: arg1 == h
+//@   before policyConnPool.removeHost: arg0 == s.pool && arg1 == h.hostId
+//@   before ring.removeHost: arg1 == h.hostId
+//@   ensures HostSelectionPolicy_RemoveHost_calls == 1 && policyConnPool_removeHost_calls == 1 && ring_removeHost_calls == 1
+//@   ensures !haskey(s.ring.hosts, h.hostId) && !haskey(s.pool.hostConnPools, h.hostId)
+
+// ---- node status events
+//@ func (h *HostInfo) setState
+//@   props C16
+//@   modifies h.state
+//@   ensures h.state == state && result == h
+
+//@ func (s *Session) debounceRingRefresh
+//@   trusted resets the refresh timer (time.Timer); no driver state besides the debouncer
+//@   modifies nothing
+
+//@ func (p *policyConnPool) addHost
+//@   trusted creates the host's pool if missing and starts filling it (goroutines, dialing)
+//@   preserves_types Session ring HostInfo ClusterConfig
+//@   ensures pool_wf(p)
+
+// DOWN for a known address: the node is marked down and, unless filtered, taken out of the policy
+// and the pool (by its id). Assumption (ring invariant): an address in the by-address index leads
+// to a node in the by-id index.
+//@ func (s *Session) handleNodeDown
+//@   props C16
+//@   ensures s.policy == old(s.policy) && s.pool == old(s.pool) && s.cfg.HostFilter == old(s.cfg.HostFilter) && s.cfg.Events.DisableNodeStatusEvents == old(s.cfg.Events.DisableNodeStatusEvents)
+//@   count_calls ring.getHostByIP setState HostSelectionPolicy.HostDown policyConnPool.removeHost filterHost
+//@   requires s.policy != nil && s.pool != nil
+// pools in the map are non-nil (addHost stores the pool it creates)
+//@   assume forall(string(id), haskey(s.pool.hostConnPools, id) ==> s.pool.hostConnPools[id] != nil)
+//@   before setState: ring_getHostByIP_calls == 1 && arg0 == ring_getHostByIP_ret0 && arg1 == NodeDown
+//@   before HostSelectionPolicy.HostDown: arg1 == ring_getHostByIP_ret0
+//@   before policyConnPool.removeHost: arg0 == s.pool && arg1 == ring_getHostByIP_ret0.hostId
+//@   stable_across HostSelectionPolicy.HostDown: s.pool.hostConnPools
+//@   ensures ring_getHostByIP_calls == 1
+//@   ensures ring_getHostByIP_ret1 ==> setState_calls == 1 && filterHost_calls == 1
+//@   ensures ring_getHostByIP_ret1 && !filterHost_ret0 ==> HostSelectionPolicy_HostDown_calls == 1 && policyConnPool_removeHost_calls == 1
+//@   ensures !ring_getHostByIP_ret1 ==> setState_calls == 0 && HostSelectionPolicy_HostDown_calls == 0 && policyConnPool_removeHost_calls == 0
+
+//@ func (s *Session) startPoolFill
+//@   props C16
+//@   preserves_types HostInfo ClusterConfig
+//@   ensures s.policy == old(s.policy) && s.pool == old(s.pool) && s.cfg.HostFilter == old(s.cfg.HostFilter) && s.cfg.Events.DisableNodeStatusEvents == old(s.cfg.Events.DisableNodeStatusEvents)
+//@   count_calls policyConnPool.addHost HostSelectionPolicy.AddHost
+//@   requires s.policy != nil && s.pool != nil && host != nil
+//@   requires ring_wf(s.ring)
+//@   ensures ring_wf(s.ring) && pool_wf(s.pool)
+//@   ensures map_unchanged_except(s.ring.hosts) && same(s.ring.hostList, old(s.ring.hostList))
+// neither the pool nor a policy has access to the ring's maps; a policy has none to the pool's
+//@   stable_across policyConnPool.addHost: s.ring.hosts, s.ring.hostIPToUUID, s.ring.hostList
+//@   stable_across HostSelectionPolicy.AddHost: s.ring.hosts, s.ring.hostIPToUUID, s.ring.hostList, s.pool.hostConnPools
+//@   before policyConnPool.addHost: arg0 == s.pool && arg1 == host
+//@   before HostSelectionPolicy.AddHost: arg1 == host
+//@   ensures policyConnPool_addHost_calls == 1 && HostSelectionPolicy_AddHost_calls == 1
+
+//@ func (h *HostInfo) Version
+//@   props C16
+//@   modifies nothing
+
+// UP for an unknown address asks for a ring refresh; for a known, accepted node the pool is
+// (re)filled and the node handed to the policy.
+//@ func (s *Session) handleNodeUp
+//@   props C16
+//@   ensures s.policy == old(s.policy) && s.pool == old(s.pool) && s.cfg.HostFilter == old(s.cfg.HostFilter) && s.cfg.Events.DisableNodeStatusEvents == old(s.cfg.Events.DisableNodeStatusEvents)
+//@   count_calls ring.getHostByIP debounceRingRefresh startPoolFill filterHost
+//@   requires s.policy != nil && s.pool != nil
+//@   before startPoolFill: arg1 == ring_getHostByIP_ret0
+//@   ensures ring_getHostByIP_calls == 1
+//@   ensures !ring_getHostByIP_ret1 ==> debounceRingRefresh_calls == 1 && startPoolFill_calls == 0
+//@   ensures ring_getHostByIP_ret1 ==> debounceRingRefresh_calls == 0 && filterHost_calls == 1 && (startPoolFill_calls == 1) == !filterHost_ret0
+
+//@ func (recv HostSelectionPolicy) HostUp
+//@   interface
+//@   trusted policies keep their own host lists; they do not write session, ring or pool state
+//@   preserves_types Session ring policyConnPool HostInfo ClusterConfig refreshDebouncer
+
+// a connected node is marked up and, unless filtered, reported to the policy
+//@ func (s *Session) handleNodeConnected
+//@   props C16
+//@   count_calls setState HostSelectionPolicy.HostUp filterHost
+//@   requires s.policy != nil && host != nil
+//@   before setState: arg0 == host && arg1 == NodeUp
+//@   before HostSelectionPolicy.HostUp: arg1 == host
+//@   ensures setState_calls == 1 && filterHost_calls == 1 && (HostSelectionPolicy_HostUp_calls == 1) == !filterHost_ret0 && HostSelectionPolicy_HostUp_calls <= 1
+
+// Event batches: any topology event asks for one ring refresh; status events are coalesced per
+// address and the latest one of the batch wins; UP/DOWN are dispatched unless disabled.
+//@ func (s *Session) handleNodeEvent
+//@   props C16
+//@   count_calls debounceRingRefresh handleNodeUp handleNodeDown
+//@   requires s.policy != nil && s.pool != nil
+//@   requires forall(k, 0 <= k && k < len(frames), nonnilptr(frames[k]))
+//@   ensures s.cfg.Events.DisableNodeStatusEvents ==> handleNodeUp_calls == 0 && handleNodeDown_calls == 0
+//@   loop 0: invariant -1 <= rangeindex && rangeindex < len(frames) && sEvents != nil && debounceRingRefresh_calls == 0 && handleNodeUp_calls == 0 && handleNodeDown_calls == 0
+//@   loop 0: invariant forall(string(k), haskey(sEvents, k) ==> sEvents[k] != nil)
+//@   loop 0: step typeis(frame, *statusChangeEventFrame) ==> haskey(sEvents, ip_str(unbox(frame, *statusChangeEventFrame).host, len(unbox(frame, *statusChangeEventFrame).host))) && sEvents[ip_str(unbox(frame, *statusChangeEventFrame).host, len(unbox(frame, *statusChangeEventFrame).host))].change == unbox(frame, *statusChangeEventFrame).change
+//@   loop 0: step typeis(frame, *topologyChangeEventFrame) ==> topologyEventReceived
+//@   loop 1: invariant s.policy != nil && s.pool != nil && (s.cfg.Events.DisableNodeStatusEvents ==> handleNodeUp_calls == 0 && handleNodeDown_calls == 0)
+//@   loop 1: invariant s.cfg.Events.DisableNodeStatusEvents == old(s.cfg.Events.DisableNodeStatusEvents)
+
+// ---- topology refresh
+// The hosts a refresh works with come from system.local / system.peers rows that passed
+// hostInfoFromMap (which resolves a valid connect address) and isValidPeer.
+//@ func (r *ringDescriber) GetHosts
+//@   trusted queries the control connection; result rows were turned into hosts with a valid address
+//@   preserves_types Session ring policyConnPool ClusterConfig
+//@   ensures result2 == nil ==> fresh(result0)
+//@   ensures result2 == nil ==> forall(k, 0 <= k && k < len(result0), result0[k] != nil && validhost(result0[k]))
+
+//@ func (r *ring) currentHosts
+//@   props C16
+//@   modifies nothing
+//@   ensures result != nil && fresh(result)
+//@   ensures forall(string(id), haskey(result, id) ==> haskey(r.hosts, id) && result[id] == r.hosts[id])
+// ranging over a map visits every key (the model of range picks arbitrary keys): assumed
+//@   ensures_assumed forall(string(id), haskey(r.hosts, id) ==> haskey(result, id))
+//@   loop 0: invariant hosts != nil && fresh(hosts)
+//@   loop 0: invariant forall(string(id), haskey(hosts, id) ==> haskey(r.hosts, id) && hosts[id] == r.hosts[id])
+
+//@ func (h *HostInfo) update
+//@   trusted fills the fields that are still unset from the freshly read row; addresses that are set stay
+//@   modifies *h
+//@   ensures old(validhost(h)) ==> validhost(h)
+//@   ensures same(h.hostId, old(h.hostId)) || old(h.hostId) == ""
+
+//@ func (c *clusterMetadata) setPartitioner
+//@   trusted stores the partitioner name under its lock
+//@   modifies *c
+
+//@ func (recv HostSelectionPolicy) SetPartitioner
+//@   interface
+//@   trusted policies keep their own state; they do not write session, ring or pool state
+//@   preserves_types Session ring policyConnPool HostInfo ClusterConfig refreshDebouncer
+
+// refreshRing: every reported, accepted node is looked up / added by id; a node new to the ring is
+// connected to and handed to the policy; a known node whose address changed is removed (policy,
+// pool, ring) and added again; every node of the previous ring that was not reported is removed.
+//@ func refreshRing
+//@   props C16
+//@   count_calls ring.addHostIfMissing Session.removeHost startPoolFill filterHost
+//@   requires r != nil && r.session != nil && r.session.policy != nil && r.session.pool != nil
+//@   requires ring_wf(r.session.ring) && pool_wf(r.session.pool)
+//@   requires smt("bool", "(and (not (= $1 $2)) (not (= $1 $3)))", r.session.pool.hostConnPools, r.session.ring.hosts, r.session.ring.hostIPToUUID)
+// reading the peers does not touch the ring or the pools; prevHosts is a private copy
+//@   stable_across GetHosts: r.session.ring.hosts, r.session.ring.hostIPToUUID, r.session.ring.hostList, r.session.pool.hostConnPools
+//@   stable_across Session.removeHost: prevHosts
+//@   stable_across startPoolFill: prevHosts
+//@   before ring.addHostIfMissing: arg1 == h
+//@   before startPoolFill: arg1 == h
+//@   before[@loop0] Session.removeHost: arg1 == existing
+//@   loop 0: invariant -1 <= rangeindex && rangeindex < len(hosts) && prevHosts != nil && r.session != nil && r.session.policy != nil && r.session.pool != nil
+//@   loop 0: invariant ring_wf(r.session.ring) && pool_wf(r.session.pool)
+//@   loop 0: invariant smt("bool", "(and (not (= $1 $2)) (not (= $1 $3)))", r.session.pool.hostConnPools, r.session.ring.hosts, r.session.ring.hostIPToUUID)
+//@   loop 0: invariant forall(string(id), haskey(prevHosts, id) ==> prevHosts[id] != nil)
+//@   loop 1: invariant prevHosts != nil && r.session != nil && r.session.policy != nil && r.session.pool != nil
+//@   loop 1: invariant ring_wf(r.session.ring) && pool_wf(r.session.pool)
+//@   loop 1: invariant smt("bool", "(and (not (= $1 $2)) (not (= $1 $3)))", r.session.pool.hostConnPools, r.session.ring.hosts, r.session.ring.hostIPToUUID)
+//@   loop 1: invariant forall(string(id), haskey(prevHosts, id) ==> prevHosts[id] != nil)
+//@   loop 0: invariant forall(k, 0 <= k && k < len(hosts), hosts[k] != nil && validhost(hosts[k]))
+// one step: an accepted host goes through addHostIfMissing; a second add happens only after the old entry was removed
+//@   loop 0: step !filterHost_ret0 ==> ring_addHostIfMissing_calls >= prev(ring_addHostIfMissing_calls) + 1
+//@   loop 0: step ring_addHostIfMissing_calls == prev(ring_addHostIfMissing_calls) + 2 ==> Session_removeHost_calls == prev(Session_removeHost_calls) + 1 && startPoolFill_calls == prev(startPoolFill_calls) + 1
+//@   loop 0: step filterHost_ret0 ==> ring_addHostIfMissing_calls == prev(ring_addHostIfMissing_calls) && Session_removeHost_calls == prev(Session_removeHost_calls) && startPoolFill_calls == prev(startPoolFill_calls)
+// every host left in prevHosts is removed
+//@   loop 1: step Session_removeHost_calls == prev(Session_removeHost_calls) + 1
 
 // ---------------------------------------------------------------------------
 // topology.go / token.go (C10): replica placement
